@@ -336,6 +336,10 @@ func refIsShadowed(contextOfCall protoreflect.Descriptor, refPath []string, full
 	for scope := contextOfCall; scope != nil; scope = scope.Parent() {
 		msg, ok := scope.(protoreflect.MessageDescriptor)
 		if !ok {
+			if svc, isService := scope.(protoreflect.ServiceDescriptor); isService && svc.Methods().ByName(first) != nil {
+				// an rpc of the service has that name: it is found before the type
+				return true
+			}
 			if _, isFile := scope.(protoreflect.FileDescriptor); isFile {
 				return false
 			}
